@@ -553,6 +553,108 @@ def ibench_unit(res):
     return res
 
 
+def insertion_unit(res):
+    """P: import_benchmark_output's insertion loop, MachineModel.set_instruction_entry and set_instruction (real code;
+    get_instruction enters through its contract (C07): None, or an entry of the model).  (1) the loop hands every parsed entry to
+    set_instruction_entry exactly once; (2) for a form the model does not know, exactly one new entry is appended to the model's
+    list (and to its per-mnemonic index) carrying the imported mnemonic, operand objects, latency, throughput, port pressure and
+    micro-ops - None stays None, nothing is invented - and every previous entry keeps all its fields; (3) for a form the lookup
+    returns, that entry is overwritten with the imported fields and no other entry changes; (4) an entry without mnemonic and
+    operands raises KeyError and leaves the model untouched."""
+    import collections
+    HWF = "osaca/semantics/hw_model.py"
+    ex = Engine([REPO + "/" + f for f in ("osaca/parser/instruction_form.py", HWF, DBI)])
+    ex.no_init |= {"MachineModel"}
+    lt, tp = z3.Real("imported_latency"), z3.Real("imported_throughput")
+    FIELDS = ("_mnemonic", "_operands", "_latency", "_port_pressure", "_throughput", "_uops")
+    for have_lt in (True, False):
+        for have_tp in (True, False):
+            for lookup in ("none", "existing"):
+                def run():
+                    old = [ex.instantiate("InstructionForm", kw=dict(mnemonic=m, operands=[SObj("RegisterOperand", tag=m)], latency=SNum(z3.Real("old_lt_" + m), False),
+                                                                     throughput=SNum(z3.Real("old_tp_" + m), False), port_pressure=[[1, "0"]])) for m in ("ADD", "SUB")]
+                    idx = collections.defaultdict(list)
+                    for e in old:
+                        idx[e.fields["_mnemonic"]].append(e)
+                    data = {"instruction_forms": list(old), "instruction_forms_dict": idx}
+                    mm = SObj("MachineModel", _data=data)
+                    ops = [SObj("RegisterOperand", tag="imported")]
+                    entry = ex.instantiate("InstructionForm", kw=dict(mnemonic="sub", operands=ops, latency=SNum(lt, False) if have_lt else None,
+                                                                      throughput=SNum(tp, False) if have_tp else None))
+                    snap = [dict(e.fields) for e in old]
+                    ex.abstract["get_instruction"] = lambda ex_, so, a, kw: None if lookup == "none" else old[1]
+                    ex.extra.update(old=old, data=data, entry=entry, snap=snap, ops=ops)
+                    return ex.call_method("MachineModel", "set_instruction_entry", mm, [entry])
+
+                paths = ex.explore(run, [])
+
+                def post(v, p, have_lt=have_lt, have_tp=have_tp, lookup=lookup):
+                    old, data, entry, snap = (p.extra[k] for k in ("old", "data", "entry", "snap"))
+                    forms = data["instruction_forms"]
+                    def same(a, b):
+                        if a is b:
+                            return True
+                        if is_num(a) and is_num(b):
+                            return z3.eq(z3.simplify(real_term(a)), z3.simplify(real_term(b)))
+                        if isinstance(a, list) and isinstance(b, list):  # a copy of a list with the same elements is the same value
+                            return len(a) == len(b) and all(same(x, y) for x, y in zip(a, b))
+                        return type(a) is type(b) and isinstance(a, (str, int, tuple)) and a == b
+                    untouched = lambda i: all(same(old[i].fields[k], snap[i][k]) for k in snap[i])
+                    if lookup == "none":
+                        new = [f for f in forms if f is not old[0] and f is not old[1]]  # position in the list is not constrained
+                        if len(forms) != 3 or len(new) != 1 or not (untouched(0) and untouched(1)):
+                            return False
+                        tgt = new[0]
+                        if not any(tgt is x for x in data["instruction_forms_dict"]["sub"]):
+                            return False
+                    else:
+                        if len(forms) != 2 or not any(f is old[0] for f in forms) or not any(f is old[1] for f in forms) or not untouched(0):
+                            return False
+                        tgt = old[1]
+                    return all(same(tgt.fields[k], entry.fields[k]) for k in FIELDS) and same(entry.fields["_operands"], p.extra["ops"])
+
+                res.add_paths(paths, post, kind=f"set_instruction/lookup={lookup}/lt={int(have_lt)}/tp={int(have_tp)}")
+
+    def run_empty():
+        data = {"instruction_forms": [], "instruction_forms_dict": collections.defaultdict(list)}
+        ex.extra.update(data=data)
+        return ex.call_method("MachineModel", "set_instruction_entry", SObj("MachineModel", _data=data), [ex.instantiate("InstructionForm", kw={})])
+
+    paths = ex.explore(run_empty, [])
+    for p in paths:
+        res.add("set_instruction_entry/empty-entry-raises-KeyError-and-changes-nothing", p.pc,
+                z3.BoolVal(p.outcome[0] == "exc" and p.outcome[1] == "KeyError" and p.extra["data"]["instruction_forms"] == []), label="P")
+
+    # the insertion loop of import_benchmark_output (file reading, model construction, parsers and dump abstract)
+    for n in (0, 1, 3):
+        def run_loop(n=n):
+            entries = {f"form{i}": SObj("InstructionForm", tag=i) for i in range(n)}
+            log = []
+            ex.abstract["_get_ibench_output"] = lambda ex_, so, a, kw: entries
+            ex.abstract["set_instruction_entry"] = lambda ex_, so, a, kw: log.append(a[0])
+            ex.abstract["dump"] = lambda ex_, so, a, kw: log.append("dump")
+            ex.abstract["get_ISA"] = lambda ex_, so, a, kw: "x86"
+            ex.abstract["os.path.exists"] = lambda ex_, so, a, kw: True
+            class File:
+                def sym_enter(self, ex_):
+                    return self
+
+                def sym_method(self, ex_, name, a, kw):
+                    if name == "readlines":
+                        return ["the", "lines"]
+                    raise Unsupported("file." + name)
+
+            ex.abstract["open"] = lambda ex_, so, a, kw: File()
+            ex.names["MachineModel"] = lambda *a, **k: SObj("MachineModel")
+            ex.extra.update(entries=entries, log=log)
+            return ex.call_function("import_benchmark_output", ["arch", "ibench", "path", SObj("Stream")])
+
+        paths = ex.explore(run_loop, [])
+        res.add_paths(paths, lambda v, p: (lambda log, ent: len(log) == len(ent) + 1 and log[-1] == "dump" and all(a is b for a, b in zip(log, ent.values())))(p.extra["log"], p.extra["entries"]),
+                      kind=f"import-loop/{n}-entries")
+    return res
+
+
 def units(tier):
     us = [
         Unit("C20/_validate_measurement", validate_unit, "P", [(DBI, "_validate_measurement")]),
@@ -562,6 +664,8 @@ def units(tier):
              [(DBI, "_create_db_operand_aarch64"), (DBI, "_create_db_operand")]),
         Unit("C20/_get_ibench_output(TP/LT merged per form, any file length)", ibench_unit, "P", [(DBI, "_get_ibench_output")]),
         Unit("C20/_get_asmbench_output(block structure, any file length)", asmbench_unit, "P", [(DBI, "_get_asmbench_output")]),
+        Unit("C20/insertion(set_instruction_entry, set_instruction, import loop)", insertion_unit, "P", [("osaca/semantics/hw_model.py", "MachineModel.set_instruction_entry"),
+             ("osaca/semantics/hw_model.py", "MachineModel.set_instruction"), (DBI, "import_benchmark_output")]),
         bounded_unit("C20/import-end-to-end", "c20_import", [(DBI, "_get_ibench_output"), (DBI, "_get_asmbench_output"),
                      (DBI, "import_benchmark_output"), ("osaca/semantics/hw_model.py", "MachineModel.set_instruction_entry"),
                      ("osaca/semantics/hw_model.py", "MachineModel.dump")], timeout=1200),
